@@ -10,7 +10,7 @@ cd /verif || exit 2
 export CARGO_NET_OFFLINE=true
 cargo +nightly fuzz build --fuzz-dir fuzz "$t" >/tmp/verif-fuzz-build-$t.log 2>&1 || { tail -20 /tmp/verif-fuzz-build-$t.log; exit 2; }
 corpus=/var/tmp/verif-fuzz-corpus/$t
-mkdir -p "$corpus"
+mkdir -p "$corpus"; cp -n /verif/fuzz/seeds/$t/* "$corpus"/ 2>/dev/null
 out=$(fuzz/target/x86_64-unknown-linux-gnu/release/$t "$corpus" -max_total_time="$secs" -seed="${VERIF_SEED:-1}" -max_len=2048 -len_control=0 -detect_leaks=0 -rss_limit_mb=12000 -jobs="$jobs" -workers="$jobs" -artifact_prefix=/var/tmp/verif-fuzz-corpus/$t- 2>&1)
 echo "$out" | grep -E "DONE|VIOLATION|^violation" | tail -5
 if echo "$out" | grep -q "^VIOLATION"; then exit 1; fi
